@@ -157,6 +157,7 @@ class Exec:
         self.engine = engine
         self.prefix = list(prefix)
         self.decisions = []
+        self._decided_objs = []
         self.events = []
         self.heap = {}
         self.depth = 0
@@ -188,6 +189,10 @@ class Exec:
             return bool(d)
         if isinstance(v, Sym):
             return True
+        # the very value already tested on this path (kept in a variable and tested again): same answer
+        for pv, pc in zip(self._decided_objs, self.decisions):
+            if pv is v:
+                return pc[1]
         # undecided: follow the prefix, else take True first and remember the fork
         i = len(self.decisions)
         if i < len(self.prefix):
@@ -195,6 +200,7 @@ class Exec:
         else:
             choice = True
         self.decisions.append((v, choice))
+        self._decided_objs.append(v)
         if len(self.decisions) > self.engine.max_decisions:
             raise Budget()
         return choice
@@ -354,6 +360,8 @@ class Exec:
     def e_BinOp(self, e, env):
         l, r = self.ev(e.left, env), self.ev(e.right, env)
         op = self._BIN.get(type(e.op), type(e.op).__name__)
+        if op in ('/', '//', '%') and not isinstance(l, str):
+            self.events.append(('div', op, l, r))        # the one arithmetic step that can raise on a value (zero divisor)
         if isinstance(l, int) and isinstance(r, int) and not isinstance(l, bool) and not isinstance(r, bool) and op in '+-*':
             return {'+': l + r, '-': l - r, '*': l * r}[op]
         if isinstance(l, str) and isinstance(r, str) and op == '+':
@@ -389,7 +397,7 @@ class Exec:
                 if other is None:
                     known = True
                 elif isinstance(other, (Sym, SList, bool, int, str)) or (isinstance(other, T) and (
-                        other.op in ('tuple', 'dict', 'lambda', 'func', 'bin', 'cmp', 'slice', 'fstr', 'not', 'neg', 'class', 'new')
+                        other.op in ('tuple', 'dict', 'lambda', 'func', 'bin', 'cmp', 'slice', 'fstr', 'not', 'neg', 'class', 'new', 'method', 'pytype', 'parsed')
                         or (other.op == 'call' and other.args[0] in ('len', 'isinstance', 'sorted', 'list', 'tuple', 'set', 'enumerate', 'reversed')))):
                     known = False
             elif isinstance(l, conc) and isinstance(r, conc):
@@ -601,6 +609,8 @@ class Exec:
         target = None
         if isinstance(fval, T) and fval.op == 'lambda':
             return self.apply_closure(fval.args[1], args, kwargs)
+        if isinstance(fval, T) and fval.op == 'call' and self.is_applicable(fval) and len(args) == 1 and not kwargs:
+            return self.apply_value(fval, args[0])
         if isinstance(fval, T) and fval.op == 'func':
             target = fval.args[1]
         elif eng.resolve is not None:
@@ -717,8 +727,8 @@ class Exec:
             items = self.iterate(args[0])
             kw = dict(kwargs)
             key, rev = kw.get('key'), kw.get('reverse', False)
-            if items is not None and isinstance(rev, bool) and (key is None or (isinstance(key, T) and key.op in ('lambda', 'func'))):
-                keys = [x if key is None else self.apply_closure(key.args[1], (x,), ()) for x in items]
+            if items is not None and isinstance(rev, bool) and (key is None or self.is_applicable(key)):
+                keys = [x if key is None else self.apply_value(key, x) for x in items]
                 if all(type(k) is int for k in keys) or all(type(k) is str for k in keys):
                     order = sorted(range(len(items)), key=lambda i: keys[i], reverse=rev)
                     return SList([items[i] for i in order])
@@ -744,8 +754,8 @@ class Exec:
                 f = args[0]
                 out = []
                 for it in items:
-                    if isinstance(f, T) and f.op in ('lambda', 'func'):
-                        out.append(self.apply_closure(f.args[1], (it,), ()))
+                    if self.is_applicable(f):
+                        out.append(self.apply_value(f, it))
                     else:
                         out.append(T('call', (gname(f), (it,), ())))
                 return SList(out, kind='gen')
@@ -822,11 +832,47 @@ class Exec:
                 if k == args[0]:
                     return v
             return args[1] if len(args) == 2 else None
+        if attr == 'get' and lst.kind == 'dict' and not lst.opaque_tail and len(args) in (1, 2) and isinstance(args[0], T) \
+                and all(isinstance(k, (str, int, bool)) for k, _ in lst.items):
+            # a computed key into a fully known table: one case per distinct value (the key is one of the keys giving it), else default
+            groups = []
+            for k, v in lst.items:
+                for g in groups:
+                    if g[0] is v or (type(g[0]) is type(v) and g[0] == v):
+                        g[1].append(k)
+                        break
+                else:
+                    groups.append((v, [k]))
+            if len(groups) <= 8:
+                for v, keys in groups:
+                    if self.truth(T('cmp', ('in', args[0], SList(keys)))):
+                        return v
+                return args[1] if len(args) == 2 else None
         if attr == 'add' and len(args) == 1:
             lst.items.append(args[0])
             self.events.append(('produce', lst.id, args[0]))
             return None
         return NotImplemented
+
+    @staticmethod
+    def is_applicable(f):
+        """A callable value the interpreter can apply to one argument: a closure, or an operator.attrgetter / itemgetter of constants."""
+        if isinstance(f, T) and f.op in ('lambda', 'func'):
+            return True
+        return isinstance(f, T) and f.op == 'call' and f.args[0] in ('operator.attrgetter', 'operator.itemgetter', 'attrgetter', 'itemgetter') \
+            and len(f.args[1]) == 1 and not f.args[2] and isinstance(f.args[1][0], (str, int)) and not isinstance(f.args[1][0], bool)
+
+    def apply_value(self, f, x):
+        if f.op in ('lambda', 'func'):
+            return self.apply_closure(f.args[1], (x,), ())
+        a = f.args[1][0]
+        if f.args[0].endswith('attrgetter'):
+            if not isinstance(a, str):
+                raise Raise('TypeError', ('attribute name must be a string',))
+            for part in a.split('.'):
+                x = self.getattr(x, part)
+            return x
+        return self.getitem(x, a)
 
     def apply_closure(self, clo, args, kwargs):
         env = dict(clo.env)
@@ -1229,6 +1275,111 @@ def simplify(t):
     return t
 
 
+_MUTATORS = frozenset(('add', 'update', 'append', 'extend', 'insert', 'pop', 'popitem', 'remove', 'discard', 'clear', 'setdefault',
+                       'sort', 'reverse', 'difference_update', 'intersection_update', 'symmetric_difference_update'))
+
+
+def _module_constant(m, name):
+    """A module-level name bound once to a literal (number, string, or a set / frozenset / tuple / list / dict display of literals)
+    that no code of the module rebinds or mutates: its value, as the interpreter's own containers.  None when it is anything else."""
+    cache = m.__dict__.setdefault('_sx_constants', {}) if hasattr(m, '__dict__') else {}
+    if name in cache:
+        v = cache[name]
+        return _fresh_constant(v) if v is not None else None
+    cache[name] = None
+    binds = [st for st in m.tree.body if isinstance(st, (ast.Assign, ast.AnnAssign))
+             and any(isinstance(t, ast.Name) and t.id == name for t in (st.targets if isinstance(st, ast.Assign) else [st.target]))]
+    if len(binds) != 1 or binds[0].value is None:
+        return None
+    for n in ast.walk(m.tree):
+        if isinstance(n, ast.Name) and n.id == name and isinstance(n.ctx, (ast.Store, ast.Del)) and not any(
+                n is t for t in (binds[0].targets if isinstance(binds[0], ast.Assign) else [binds[0].target])):
+            return None
+        if isinstance(n, ast.Global) and name in n.names:
+            return None
+        if isinstance(n, ast.Attribute) and isinstance(n.value, ast.Name) and n.value.id == name and n.attr in _MUTATORS:
+            return None
+        if isinstance(n, ast.Subscript) and isinstance(n.value, ast.Name) and n.value.id == name and isinstance(n.ctx, (ast.Store, ast.Del)):
+            return None
+        if isinstance(n, ast.AugAssign) and isinstance(n.target, ast.Name) and n.target.id == name:
+            return None
+    try:
+        lit = _const_eval(binds[0].value)
+    except _NotConstant:
+        return None
+    cache[name] = ('lit', lit)
+    return _fresh_constant(cache[name])
+
+
+def _const_eval(e):
+    """Value of a side-effect free constant expression: literals, displays (with * / ** unpacking), frozenset/set/tuple/list/dict of
+    one of those, dict.fromkeys, and | / + between them."""
+    if isinstance(e, ast.Constant) and (e.value is None or isinstance(e.value, (bool, int, str))):
+        return e.value
+    if isinstance(e, (ast.Tuple, ast.List, ast.Set)):
+        items = []
+        for x in e.elts:
+            if isinstance(x, ast.Starred):
+                items.extend(_const_eval(x.value))
+            else:
+                items.append(_const_eval(x))
+        try:
+            return tuple(items) if isinstance(e, ast.Tuple) else items if isinstance(e, ast.List) else set(items)
+        except TypeError:
+            raise _NotConstant()
+    if isinstance(e, ast.Dict):
+        out = {}
+        for k, v in zip(e.keys, e.values):
+            try:
+                if k is None:
+                    out.update(_const_eval(v))
+                else:
+                    out[_const_eval(k)] = _const_eval(v)
+            except (TypeError, ValueError):
+                raise _NotConstant()
+        return out
+    if isinstance(e, ast.Call) and not e.keywords:
+        f = ast.unparse(e.func)
+        args = [_const_eval(a) for a in e.args]
+        try:
+            if f in ('frozenset', 'set', 'tuple', 'list', 'dict', 'sorted') and len(args) <= 1:
+                return {'frozenset': frozenset, 'set': set, 'tuple': tuple, 'list': list, 'dict': dict, 'sorted': sorted}[f](*args)
+            if f == 'dict.fromkeys' and 1 <= len(args) <= 2:
+                return dict.fromkeys(*args)
+        except (TypeError, ValueError):
+            raise _NotConstant()
+    if isinstance(e, ast.BinOp) and isinstance(e.op, (ast.BitOr, ast.Add)):
+        l, r = _const_eval(e.left), _const_eval(e.right)
+        try:
+            return l | r if isinstance(e.op, ast.BitOr) else l + r
+        except TypeError:
+            raise _NotConstant()
+    raise _NotConstant()
+
+
+def _fresh_constant(c):
+    def conv(x, top=False):
+        if x is None or isinstance(x, (bool, int, str)):
+            return x
+        if isinstance(x, (set, frozenset)):
+            return SList(sorted((conv(i) for i in x), key=repr), kind='set')
+        if isinstance(x, list):
+            return SList([conv(i) for i in x])
+        if isinstance(x, tuple):
+            return T('tuple', tuple(conv(i) for i in x))
+        if isinstance(x, dict):
+            return SList([(conv(k), conv(v)) for k, v in x.items()], kind='dict')
+        raise _NotConstant()
+    try:
+        return conv(c[1])
+    except _NotConstant:
+        return None
+
+
+class _NotConstant(Exception):
+    pass
+
+
 class Engine:
     """Configuration of one analysis: oracle and hooks, then `paths(fn, env)`."""
 
@@ -1256,6 +1407,10 @@ class Engine:
     def global_value(self, name, env):
         if name in self.globals_:
             return self.globals_[name]
+        fi = env.get('__fi__') if isinstance(env, dict) else None
+        m = getattr(fi, 'module', None)
+        if m is not None:
+            return _module_constant(m, name)
         return None
 
     def default_resolve(self, node, fname, fval, recv, ex, env):
